@@ -70,6 +70,17 @@ def PySet.empty : PySet := []
 def PySet.single (k : Int) : PySet := [k]
 def PySet.union (a b : PySet) : PySet := a ++ b.filter (fun x => !a.contains x)
 
+/-- `getattr(x, "arity", 0) > 0` on an external value that the string backend carries as its text `str(x)`: the text of a
+    compound term contains an operator, a bracket, a comma or a blank; the text of a constant or an atom does not (a
+    leading sign and the sign of an exponent are part of a numeral).  Modelled, not derived: the correspondence check
+    of C12 runs `value` on real compound and atomic labels. -/
+def PyStr.compoundAux : Char → List Char → Bool
+  | _, [] => false
+  | prev, c :: cs =>
+    (c == '(' || c == '+' || c == '*' || c == '/' || c == ' ' || c == ',' || c == '^')
+      || (c == '-' && !(prev == 'e' || prev == 'E' || prev == '\x00')) || PyStr.compoundAux c cs
+def PyStr.isCompound (s : String) : Bool := PyStr.compoundAux '\x00' s.toList
+
 /-! ### `Float` instance (used by the compiled driver for the grid cross-check of the translation) -/
 
 /-- `log1p` with the classical correction `log(u)·x/(u−1)`, `u = 1+x` (accurate to a few ulp; compared with
